@@ -991,7 +991,15 @@ fn classify_ref(leaf: &Leaf, oleaf: Option<&Leaf>, e: &Tok, g: Option<&Tok>, res
                     // reference that failed to move: "ref:not-shifted")
                     if locked { "ref:deleted-target-kept-unchanged-locked".to_string() } else { "ref:deleted-target-kept-unchanged".to_string() }
                 }
-                Some(g) if g.k == K::Run && parse_ref_run(&g.text).is_some() => format!("ref:{}", dead_label),
+                Some(g) if g.k == K::Run && parse_ref_run(&g.text).is_some() => {
+                    // a deleted target that is still referenced: did the reference even move AWAY from the origin
+                    // (larger coordinates)?  A removal can only move references towards the origin.
+                    let away = match (parse_ref_run(&g.text), oleaf) {
+                        (Some((_, gk)), Some(Leaf::Ref(o))) if same_shape(&gk, &o.k) => rk_parts(&gk).iter().zip(rk_parts(&o.k).iter()).any(|(a, b)| a.n > b.n),
+                        _ => false,
+                    };
+                    if away && dead_label == "deleted-target-not-REF" { "ref:moved-in-wrong-direction".to_string() } else { format!("ref:{}", dead_label) }
+                }
                 Some(g) if g.k == K::QSheet => format!("ref:{}", dead_label),
                 _ => "ref:REF-error-missing".to_string(),
             };
@@ -1041,6 +1049,18 @@ fn classify_ref(leaf: &Leaf, oleaf: Option<&Leaf>, e: &Tok, g: Option<&Tok>, res
                     if let Some(Leaf::Ref(o)) = oleaf {
                         if o.k == ek {
                             return ("ref:unconcerned-ref-changed".to_string(), tags);
+                        }
+                    }
+                    // moved in the direction opposite to the expected one (e.g. insert rule applied on a removal)
+                    if let Some(opp) = &ok_ {
+                        let opposite = !wrong.is_empty()
+                            && wrong.iter().all(|&j| {
+                                let e = epp[j].n as i64 - opp[j].n as i64;
+                                let g = gpp[j].n as i64 - opp[j].n as i64;
+                                (e < 0 && g > 0) || (e > 0 && g < 0) || (e == 0 && g != 0 && false)
+                            });
+                        if opposite {
+                            return ("ref:moved-in-wrong-direction".to_string(), tags);
                         }
                     }
                     let s = match ok_ {
